@@ -337,11 +337,17 @@ class Ctx:
             "solver_seconds": round(sum(q.get("seconds", 0) for q in self.queries), 3),
             "exhaustive": False,
         }
+        validated = len([f for f in self.fidelity if f["ok"]]) + len([r for r in self.replays if r["reproduced"]])
         if self.paths >= 1:
             cov["states"] = self.paths
             cov["transitions"] = max(1, self.branches)
-            cov["traces_validated_against_impl"] = len([f for f in self.fidelity if f["ok"]]) + len(
-                [r for r in self.replays if r["reproduced"]])
+            cov["states_rule"] = "states = execution paths of the real code explored symbolically, transitions = branch decisions taken on them"
+        else:
+            # no path exploration in this check (obligations are discharged directly): one symbolic state per decided obligation
+            cov["states"] = max(1, len({q["name"] for q in decided}))
+            cov["transitions"] = max(1, len(self.queries))
+            cov["states_rule"] = "no path exploration in this check: states = distinct obligations decided, transitions = solver calls / ground evaluations made for them"
+        cov["traces_validated_against_impl"] = validated
         ev = {
             "property_id": self.pid, "tier": self.tier, "seed": self.seed, "level": "model_checking",
             "coverage": cov, "assumptions": self.assumptions + ["stub: " + s for s in self.stubs],
